@@ -171,6 +171,7 @@ func c14(c *core.Ctx, r *core.Report) {
 	r.Floor("R14.transfer", 35, "37 kinds")
 	c14go(c, r, t)
 	staleRule(c, r, "R14.stale")
+	c14select(c, r)
 	// ---- R14.underlying
 	underlyingRule(c, r, "R14.underlying", func(t core.TypeTest) bool { return t.PkgRel == "analysis/escape" }, map[string]string{
 		"analysis/escape.CanPointTo|a.(*types.Pointer)":                              "filter with a conservative default: a type that is not recognised as a pointer falls through to `return true` (edge allowed)",
